@@ -84,10 +84,23 @@ async def _scenario(sc):
         except TimeoutError:
             results[k] = (("timeout",), (loop.time() - t0) / A.TICK)
 
+    def deliver(n, m):
+        obj = A.build_message(resolve(m, callers), None, None)
+        index[id(obj)] = n
+        keep.append(obj)
+        in_send.send_nowait(obj)
+
     async with anyio.create_task_group() as tg:
+        if sc.get("delivery_first"):
+            # every answer is put on the stream by a loop CALLBACK registered before any poll timer exists (what a transport
+            # does): an answer due exactly on a poll boundary then completes the pending receive() in the very loop pass in
+            # which that poll's deadline is called - delivery first
+            for n, (t, m) in enumerate(sc["arrivals"]):
+                loop.call_at(t0 + t * A.TICK, deliver, n, m)
         for k in range(len(callers)):
             tg.start_soon(caller, k)
-        tg.start_soon(feeder)
+        if not sc.get("delivery_first"):
+            tg.start_soon(feeder)
     return results, log
 
 
@@ -116,6 +129,8 @@ def gen(ctx):
                         arr.append((tset[pos], ("res", ("caller", k), 100 + k)))
                     arr.sort(key=lambda x: x[0])
                     out.append({"callers": [(names[k], 300) for k in range(n)], "arrivals": arr})
+                    if any(t % 50 == 0 and t > 0 for t in tset):
+                        out.append({"callers": [(names[k], 300) for k in range(n)], "arrivals": arr, "delivery_first": True})
     # ids that differ only in their JSON type ("7" vs 7), and other near-collisions
     for twins in (["7", 7], [7, "7"], ["10", 10, "010"], ["a", "a ", "A"], ["-1", -1]):
         n = len(twins)
@@ -175,6 +190,8 @@ def explore(ctx, model, spec):
     for (sc, results, log), mr, ok1, lost in zip(rows, mres, s1, s2):
         case = {"callers": [list(c) for c in sc["callers"]], "arrivals": [[t, list(map(lambda x: list(x) if isinstance(x, tuple) else x, m))]
                                                                          for t, m in sc["arrivals"]]}
+        if sc.get("delivery_first"):
+            case["delivery_first"] = True
         ctx.case(case, nontrivial=len(sc["arrivals"]) > 0)
         ctx.count(f"callers:{len(sc['callers'])}")
         outs = [r[0] for r in results]
@@ -316,7 +333,7 @@ def replay(ctx, data):
             ctx.spec_violation("response-lost-behind-burst-in-transport", c, f"{outs}")
             print("REPRODUCED", outs)
         return 1 if outs != want else 0
-    sc = {"callers": [tuple(x) for x in c["callers"]],
+    sc = {"delivery_first": bool(c.get("delivery_first")), "callers": [tuple(x) for x in c["callers"]],
           "arrivals": [(t, tuple(tuple(x) if isinstance(x, list) else x for x in m)) for t, m in c["arrivals"]]}
     global gen
     gen = lambda _ctx: [sc]   # noqa: E731
